@@ -1,6 +1,6 @@
 //! Case runner: one fresh OS thread per case, result handed back through a channel.
 
-use std::sync::mpsc::{sync_channel, RecvTimeoutError};
+use std::sync::mpsc::{sync_channel, Receiver, RecvTimeoutError, SyncSender};
 use std::time::Duration;
 
 use crate::alloc;
@@ -16,6 +16,9 @@ pub struct RunOpts {
     pub known: Vec<String>,
     pub quiesce_mid: bool,
     pub timeout_s: u64,
+    pub persist: bool,
+    pub prop: String,
+    pub config: String,
 }
 
 pub enum Outcome {
@@ -40,8 +43,10 @@ fn body(case: &Case, opts: &RunOpts, tx: std::sync::mpsc::SyncSender<CaseResult>
         }
     }
     epilogue(case);
-    let res = w(|w| w.take_result(false));
+    let mut res = w(|w| w.take_result(false));
+    let leaked = w(|w| w.any_panic || w.objs.iter().any(|o| o.in_box && !o.dropped) || w.handles.iter().any(|h| h.is_some()));
     teardown();
+    res.clean = !leaked && res.violations.is_empty() && pristine();
     let _ = tx.send(res);
 }
 
@@ -104,6 +109,31 @@ fn epilogue(case: &Case) {
     // handles may have been acquired again by callbacks: forget them in teardown
 }
 
+/// Is the collector state of this thread indistinguishable from that of a fresh thread?
+fn pristine() -> bool {
+    use rust_cc::state;
+    #[cfg(feature = "auto-collect")]
+    {
+        // default configuration; an empty collection lets the policy shrink the threshold back
+        let ok = rust_cc::config::config(|c| {
+            c.set_auto_collect(true);
+            c.set_adjustment_percent(0.1);
+            c.set_buffered_objects_threshold(None);
+        })
+        .is_ok();
+        if !ok {
+            return false;
+        }
+        rust_cc::collect_cycles();
+        if rust_cc::verif::bytes_threshold() != Some(100) {
+            return false;
+        }
+    }
+    state::buffered_objects_count().ok() == Some(0)
+        && state::allocated_bytes().ok() == Some(0)
+        && rust_cc::verif::state_flags() == Some((false, false, false))
+}
+
 fn teardown() {
     if let Some(mut world) = uninstall() {
         for h in world.handles.drain(..).flatten() {
@@ -124,23 +154,59 @@ fn teardown() {
     }
 }
 
-pub fn run_case(case: &Case, opts: &RunOpts) -> Outcome {
-    let (tx, rx) = sync_channel::<CaseResult>(2);
-    let c = case.clone();
-    let o = opts.clone();
+struct Worker {
+    jobs: SyncSender<(Case, RunOpts)>,
+    results: Receiver<CaseResult>,
+    handle: Option<std::thread::JoinHandle<()>>,
+}
+
+thread_local! {
+    static WORKER: std::cell::RefCell<Option<Worker>> = const { std::cell::RefCell::new(None) };
+}
+
+fn spawn_worker() -> Worker {
+    let (jtx, jrx) = sync_channel::<(Case, RunOpts)>(1);
+    let (rtx, rrx) = sync_channel::<CaseResult>(2);
     let handle = std::thread::Builder::new()
         .name("case".into())
         .stack_size(4 << 20)
-        .spawn(move || body(&c, &o, tx))
+        .spawn(move || {
+            while let Ok((case, opts)) = jrx.recv() {
+                body(&case, &opts, rtx.clone());
+            }
+        })
         .expect("spawn case thread");
-    match rx.recv_timeout(Duration::from_secs(opts.timeout_s.max(1))) {
+    Worker { jobs: jtx, results: rrx, handle: Some(handle) }
+}
+
+/// Runs one case. Collector state is thread-local and cannot be reset, so a case runs on a
+/// fresh OS thread -- except that a worker thread whose previous case ended provably pristine
+/// (nothing buffered, zero managed bytes, default configuration and threshold, no fault) is
+/// reused, which saves most thread creations.
+pub fn run_case(case: &Case, opts: &RunOpts) -> Outcome {
+    if opts.persist {
+        let v = serde_json::json!({"property": opts.prop, "engine": "crash", "configuration": opts.config, "case": case,
+            "signature": "process-killed-by-signal", "violations": [], "log": []});
+        crate::crash::set_current(serde_json::to_vec(&v).unwrap());
+    }
+    let mut worker = WORKER.with(|w| w.borrow_mut().take()).unwrap_or_else(spawn_worker);
+    worker.jobs.send((case.clone(), opts.clone())).expect("worker gone");
+    match worker.results.recv_timeout(Duration::from_secs(opts.timeout_s.max(1))) {
         Ok(res) => {
             if res.abandoned {
                 // the thread is parked for ever; leave its memory alone
                 alloc::abandon_case();
-                drop(handle);
+                drop(worker.handle.take());
+            } else if res.clean {
+                alloc::end_case();
+                WORKER.with(|w| *w.borrow_mut() = Some(worker));
             } else {
-                let _ = handle.join();
+                let Worker { jobs, results, handle } = worker;
+                drop(jobs);
+                if let Some(h) = handle {
+                    let _ = h.join();
+                }
+                drop(results);
                 alloc::end_case();
             }
             Outcome::Done(res)
@@ -151,16 +217,17 @@ pub fn run_case(case: &Case, opts: &RunOpts) -> Outcome {
         }
         Err(RecvTimeoutError::Disconnected) => {
             // the case thread died without reporting: a harness panic
-            let r = handle.join();
+            let r = worker.handle.take().map(|h| h.join());
             alloc::abandon_case();
             let msg = match r {
-                Err(p) => p
+                Some(Err(p)) => p
                     .downcast_ref::<String>()
                     .cloned()
                     .or_else(|| p.downcast_ref::<&str>().map(|s| s.to_string()))
                     .unwrap_or_else(|| "<panic>".into()),
-                Ok(()) => "thread ended without result".into(),
+                _ => "thread ended without result".into(),
             };
+            let msg = format!("{} at {}", msg, crate::engine::last_panic_loc());
             let mut res = CaseResult::default();
             res.violations.push(Violation {
                 props: vec!["HARNESS".into()],
